@@ -1,6 +1,8 @@
-(* C11 proofs, part 4: every step of Model/ToastSql.v keeps the invariant "each row shows the value of
-   the last successful write to its key, and no two rows share a chunk id" - unless the step is the
-   lossy UPDATE of finding class 3 (then the model's `lost` flag goes up). *)
+(* C11 proofs, part 4: every step of Model/ToastSql.v keeps the invariant "each row shows the value of the
+   last successful write to its key - inline, or through a pointer under the chunk id of its own row id
+   whose chunks are all in the toast table - and every chunk in the toast table belongs to such a row";
+   under it no toast write can meet an occupied key.  The only step that breaks it is a re-executed
+   prepared INSERT of pointer-like bytes (finding class 4: the model's `fake` flag goes up). *)
 From Coq Require Import ZArith List Bool Lia ZifyBool.
 From TV Require Import Lib.MachInt Lib.MachIntFacts Gen.Toast Model.Toast Model.Utf8 Model.ToastSql
   Proof.ToastCodec Proof.ToastStore Proof.ToastSqlBase.
@@ -22,32 +24,105 @@ Arguments Z.of_nat : simpl never.
 Arguments Z.to_nat : simpl never.
 Arguments wrap_u : simpl never.
 
+(* a 17-byte 0xFE-led string is not UTF-8: text never looks like a TOAST pointer *)
+Lemma utf8_not_pointer b : valid_utf8 b = true -> is_toast_pointer b = false.
+Proof.
+  intros Hu. destruct (is_toast_pointer b) eqn:Ep; [|reflexivity]. exfalso.
+  unfold is_toast_pointer in Ep. apply andb_true_iff in Ep as [_ E]. apply Z.eqb_eq in E.
+  destruct b as [|b0 t]; [discriminate E|]. unfold bidx in E. change (nth (Z.to_nat 0) (b0 :: t) 0) with b0 in E. subst b0.
+  unfold valid_utf8 in Hu. destruct t as [|b1 [|b2 [|b3 t3]]]; discriminate Hu.
+Qed.
+
+Lemma pointer_nonempty b : is_toast_pointer b = true -> b <> [].
+Proof. intros H ->. discriminate H. Qed.
+
+Lemma nodup_map_inj {A} (f : A -> Z) (l : list A) x y : NoDup (map f l) -> In x l -> In y l -> f x = f y -> x = y.
+Proof.
+  induction l as [|h t IH]; intros Hn Hx Hy E; [destruct Hx|].
+  cbn [map] in Hn. inversion Hn as [|? ? Hh Ht]; subst.
+  destruct Hx as [<-|Hx]; destruct Hy as [<-|Hy]; auto.
+  - exfalso. apply Hh. rewrite E. now apply in_map.
+  - exfalso. apply Hh. rewrite <- E. now apply in_map.
+Qed.
+
+(* row lists: the same facts for any projection *)
+Lemma ins_row_map_in (f : row -> Z) x rs y : In y (map f (ins_row x rs)) <-> y = f x \/ In y (map f rs).
+Proof.
+  rewrite !in_map_iff. split.
+  - intros (r & E & H). apply ins_row_in in H as [->|H]; [left; auto | right; eauto].
+  - intros [->|(r & E & H)]; [exists x | exists r]; (split; [auto | apply ins_row_in; auto]).
+Qed.
+Lemma ins_row_nodup_f (f : row -> Z) x rs : NoDup (map f rs) -> ~ In (f x) (map f rs) -> NoDup (map f (ins_row x rs)).
+Proof.
+  induction rs as [|h t IH]; cbn [ins_row map]; intros Hn Hx.
+  - constructor; [intros [] | constructor].
+  - destruct (r_k x <=? r_k h).
+    + cbn [map]. constructor; [exact Hx | exact Hn].
+    + cbn [map]. inversion Hn as [|? ? Hh Ht]; subst. constructor.
+      * intros H. apply ins_row_map_in in H as [E|H]; [apply Hx; left; auto | contradiction].
+      * apply IH; [exact Ht | intros H; apply Hx; now right].
+Qed.
+Lemma set_row_rids k s rs : map r_rid (set_row k s rs) = map r_rid rs.
+Proof.
+  induction rs as [|h t IH]; cbn [set_row map]; [reflexivity|].
+  destruct (r_k h =? k); cbn [map r_rid]; [reflexivity | now rewrite IH].
+Qed.
+Lemma set_row_keeps k s rs r : In r rs -> r_k r <> k -> In r (set_row k s rs).
+Proof.
+  induction rs as [|h t IH]; cbn [set_row]; intros Hin Hk; [destruct Hin|].
+  destruct (Z.eqb_spec (r_k h) k) as [E|E].
+  - destruct Hin as [<-|Hin]; [contradiction | now right].
+  - destruct Hin as [<-|Hin]; [now left | right; auto].
+Qed.
+Lemma set_row_has k s rs r : In r rs -> r_k r = k -> NoDup (map r_k rs) -> In (mkrow (r_rid r) k s) (set_row k s rs).
+Proof.
+  induction rs as [|h t IH]; cbn [set_row map]; intros Hin Hk Hn; [destruct Hin|].
+  inversion Hn as [|? ? Hh Ht]; subst.
+  destruct (Z.eqb_spec (r_k h) (r_k r)) as [E|E].
+  - destruct Hin as [<-|Hin]; [now left|]. exfalso. apply Hh. rewrite E. now apply in_map.
+  - destruct Hin as [<-|Hin]; [contradiction | right; auto].
+Qed.
+Lemma del_row_keeps k rs r : In r rs -> r_k r <> k -> In r (del_row k rs).
+Proof.
+  induction rs as [|h t IH]; cbn [del_row]; intros Hin Hk; [destruct Hin|].
+  destruct (Z.eqb_spec (r_k h) k) as [E|E].
+  - destruct Hin as [<-|Hin]; [contradiction | exact Hin].
+  - destruct Hin as [<-|Hin]; [now left | right; auto].
+Qed.
+Lemma del_row_map_incl (f : row -> Z) k rs y : In y (map f (del_row k rs)) -> In y (map f rs).
+Proof.
+  induction rs as [|h t IH]; cbn [del_row map]; [auto|].
+  destruct (r_k h =? k); [now right|]. cbn [map]. intros [H|H]; [now left | right; auto].
+Qed.
+Lemma del_row_nodup_f (f : row -> Z) k rs : NoDup (map f rs) -> NoDup (map f (del_row k rs)).
+Proof.
+  induction rs as [|h t IH]; cbn [del_row map]; intros Hn; [constructor|].
+  inversion Hn as [|? ? Hh Ht]; subst.
+  destruct (r_k h =? k); [exact Ht|]. cbn [map]. constructor; [|auto].
+  intros H. apply Hh. eapply del_row_map_incl. exact H.
+Qed.
+
 Section Step.
 Variable ty : colty.
 Variable pk : bool.
 
-Definition R (m : tmap) (r : row) (e : Z * value) : Prop := r_k r = fst e /\ repr ty m (r_st r) (snd e).
+Definition R (m : tmap) (r : row) (e : Z * value) : Prop := r_k r = fst e /\ repr ty m (r_rid r) (r_st r) (snd e).
 Lemma R_key m r e : R m r e -> r_k r = fst e.
 Proof. intros [H _]. exact H. Qed.
 
-Definition distinct (rs : list row) : Prop :=
-  forall r r' c, In r rs -> In r' rs -> r_k r <> r_k r' ->
-    cid_of (r_st r) = Some c -> cid_of (r_st r') = Some c -> False.
+(* every chunk in the toast table is one of the chunks some row's pointer refers to *)
+Definition owned (m : tmap) (rs : list row) : Prop :=
+  forall k x, m k = Some x -> exists r n, In r rs /\ span (r_st r) = Some (fst k, n) /\ 0 <= snd k < n.
 
 Record Inv (st : state) (e : list (Z * value)) : Prop := mkInv {
   inv_rows : Forall2 (R (toast st)) (rows st) e;
   inv_keys : NoDup (map r_k (rows st));
-  inv_cids : distinct (rows st);
+  inv_ridnd : NoDup (map r_rid (rows st));
   inv_rid : 1 <= next_rid st;
   inv_rids : forall r, In r (rows st) -> 0 <= r_rid r < next_rid st;     (* row keys come from the counter *)
-  inv_gone : forall x, In x (gone st) -> 0 <= x < next_rid st
+  inv_gone : forall x, In x (gone st) -> 0 <= x < next_rid st;
+  inv_owned : owned (toast st) (rows st)
 }.
-
-(* a written value outside finding classes 1 and 2 that fits the column *)
-Definition clean_val (v : value) : Prop :=
-  val_ok ty v = true /\
-  (forall b, var_bytes v = Some b -> is_toast_pointer b = false) /\
-  (forall b, v = VBlob b -> needs_toast b = true -> valid_utf8 b = false).
 
 Lemma Forall2_in_l {A B} (P : A -> B -> Prop) l l' a : Forall2 P l l' -> In a l -> exists b, In b l' /\ P a b.
 Proof.
@@ -56,112 +131,169 @@ Proof.
   destruct (IH Hin) as (b & Hb & Hp). exists b. split; [now right | exact Hp].
 Qed.
 
-(* ---------------------------------------------------------------- the three ways a value enters the record *)
-Lemma repr_inline m v b : clean_val v -> var_bytes v = Some b -> repr ty m (SBytes b) v.
+Lemma inv_row_repr st e r : Inv st e -> In r (rows st) -> exists x, In x e /\ R (toast st) r x.
+Proof. intros Hi Hin. eapply Forall2_in_l; [exact (inv_rows st e Hi) | exact Hin]. Qed.
+
+Lemma inv_rid48 st e r : Inv st e -> next_rid st <= 2 ^ 48 -> In r (rows st) -> 0 <= r_rid r < 2 ^ 48.
+Proof. intros Hi Hb Hin. pose proof (inv_rids st e Hi r Hin). lia. Qed.
+
+(* a row's pointer is the only thing that can own keys of the row's chunk id *)
+Lemma owner_is st e r k x : Inv st e -> next_rid st <= 2 ^ 48 -> In r (rows st) ->
+  toast st k = Some x -> fst k = cid_row (r_rid r) ->
+  exists n, span (r_st r) = Some (cid_row (r_rid r), n) /\ 0 <= snd k < n.
 Proof.
-  intros (Hok & Hfake & Hu) Hv. destruct v; cbn [var_bytes] in Hv; try discriminate; injection Hv as ->.
-  - destruct ty; cbn [val_ok] in Hok; try discriminate. apply andb_true_iff in Hok as [H1 H2].
-    cbn [repr]. repeat split; auto; [lia|]. left. split; [reflexivity | now apply Hfake].
-  - destruct ty; cbn [val_ok] in Hok; try discriminate.
-    cbn [repr]. repeat split; auto; [lia | |].
-    + intros Hb. apply (Hu b eq_refl). now apply needs_toast_iff.
-    + left. split; [reflexivity | now apply Hfake].
+  intros Hi Hb Hin Hk Hc. destruct (inv_owned st e Hi k x Hk) as (r' & n & Hin' & Hsp & Hi').
+  destruct (inv_row_repr st e r' Hi Hin') as (x' & _ & _ & Hr').
+  destruct (repr_span _ _ _ _ _ _ _ (inv_rid48 st e r' Hi Hb Hin') Hr' Hsp) as (Ec & _).
+  rewrite Hc in Ec. apply cid_row_inj in Ec; [|eapply inv_rid48; eauto|eapply inv_rid48; eauto].
+  assert (r = r') as <- by (eapply (nodup_map_inj r_rid); [exact (inv_ridnd st e Hi) | | |]; auto).
+  exists n. rewrite <- Hc. auto.
 Qed.
 
-Lemma repr_toasted m v b cid : clean_val v -> var_bytes v = Some b -> needs_toast b = true ->
-  stored_at m cid b -> 0 <= cid < 2 ^ 64 -> repr ty m (SBytes (ptr_encode (blen b) cid)) v.
+(* no key under the chunk id of a row id that no row has *)
+Lemma key_free st e rid : Inv st e -> next_rid st <= 2 ^ 48 -> 0 <= rid < 2 ^ 48 ->
+  (forall r, In r (rows st) -> r_rid r <> rid) -> forall i, toast st (cid_row rid, i) = None.
 Proof.
-  intros (Hok & Hfake & Hu) Hv Hn Hs Hc. apply needs_toast_iff in Hn.
-  destruct v; cbn [var_bytes] in Hv; try discriminate; injection Hv as ->.
-  - destruct ty; cbn [val_ok] in Hok; try discriminate. apply andb_true_iff in Hok as [H1 H2].
-    cbn [repr]. repeat split; auto; [lia|]. right. exists cid. repeat split; auto; lia.
-  - destruct ty; cbn [val_ok] in Hok; try discriminate.
-    cbn [repr]. repeat split; auto; [lia | |].
-    + intros Hb. apply (Hu b eq_refl). now apply needs_toast_iff.
-    + right. exists cid. repeat split; auto; lia.
+  intros Hi Hb Hrid Hno i. destruct (toast st (cid_row rid, i)) as [x|] eqn:Hk; [exfalso|reflexivity].
+  destruct (inv_owned st e Hi _ x Hk) as (r' & n & Hin' & Hsp & _). cbn [fst] in Hsp.
+  destruct (inv_row_repr st e r' Hi Hin') as (x' & _ & _ & Hr').
+  destruct (repr_span _ _ _ _ _ _ _ (inv_rid48 st e r' Hi Hb Hin') Hr' Hsp) as (Ec & _).
+  apply cid_row_inj in Ec; [|exact Hrid|eapply inv_rid48; eauto]. apply (Hno r' Hin'). auto.
 Qed.
 
-Lemma repr_scalar m v : clean_val v -> var_bytes v = None -> repr ty m (store_scalar v) v.
+(* ---------------------------------------------------------------- how a value enters the record *)
+Lemma val_ok_len v b : val_ok ty v = true -> var_bytes v = Some b -> blen b < ALLOC_OK.
 Proof.
-  intros (Hok & _ & _) Hv.
+  intros Hok Ev. destruct v; cbn [var_bytes] in Ev; try discriminate; injection Ev as ->;
+    destruct ty; cbn [val_ok] in Hok; try discriminate; [apply andb_true_iff in Hok as [_ Hok]|]; lia.
+Qed.
+
+Lemma repr_inline m rid v b : val_ok ty v = true -> var_bytes v = Some b -> is_toast_pointer b = false ->
+  repr ty m rid (SBytes b) v.
+Proof.
+  intros Hok Hv Hp. destruct v; cbn [var_bytes] in Hv; try discriminate; injection Hv as ->.
+  - destruct ty; cbn [val_ok] in Hok; try discriminate. apply andb_true_iff in Hok as [H1 H2].
+    cbn [repr]. repeat split; auto; [lia|]. left. auto.
+  - destruct ty; cbn [val_ok] in Hok; try discriminate.
+    cbn [repr]. repeat split; auto; [lia|]. left. auto.
+Qed.
+
+Lemma repr_toasted m rid v b : val_ok ty v = true -> var_bytes v = Some b -> b <> [] ->
+  stored_at m (cid_row rid) b -> repr ty m rid (SBytes (ptr_encode (blen b) (cid_row rid))) v.
+Proof.
+  intros Hok Hv Hn Hs. destruct v; cbn [var_bytes] in Hv; try discriminate; injection Hv as ->.
+  - destruct ty; cbn [val_ok] in Hok; try discriminate. apply andb_true_iff in Hok as [H1 H2].
+    cbn [repr]. repeat split; auto; [lia|]. right. auto.
+  - destruct ty; cbn [val_ok] in Hok; try discriminate.
+    cbn [repr]. repeat split; auto; [lia|]. right. auto.
+Qed.
+
+Lemma repr_scalar m rid v : val_ok ty v = true -> var_bytes v = None -> repr ty m rid (store_scalar v) v.
+Proof.
+  intros Hok Hv.
   destruct v; cbn [var_bytes] in Hv; try discriminate; cbn [store_scalar repr];
     destruct ty; cbn [val_ok] in Hok; try discriminate; auto.
 Qed.
 
-(* toast_value as INSERT / UPDATE use it *)
-Lemma put_value_spec m rid v m' sv :
-  clean_val v -> 0 <= rid < 2 ^ 64 -> put_value m rid v = (m', sv) ->
-  extends m m' /\
-  match sv with
-  | Some s => repr ty m' s v /\ (forall c, cid_of s = Some c -> m (c, 0) = None)
-  | None => True
-  end.
+Lemma span_scalar v : span (store_scalar v) = None.
+Proof. destruct v; reflexivity. Qed.
+
+(* toast_value as INSERT / UPDATE use it, when no key of the row's chunk id is in the table: it cannot fail *)
+Lemma put_value_ok upd m rid v :
+  val_ok ty v = true -> 0 <= rid < 2 ^ 48 -> (forall i, m (cid_row rid, i) = None) ->
+  exists m' s, put_value upd m rid v = (m', Some s) /\ extends m m' /\ repr ty m' rid s v /\
+    (forall k x, m' k = Some x -> m k = Some x \/ (exists n, span s = Some (cid_row rid, n) /\ fst k = cid_row rid /\ 0 <= snd k < n)).
 Proof.
-  intros Hc Hr H. unfold put_value in H.
+  intros Hok Hrid Hfree. unfold put_value. fold (cid_row rid).
   destruct (var_bytes v) as [b|] eqn:Ev.
-  - destruct (needs_toast b) eqn:En.
-    + destruct (toast_write m (chunk_id_of rid COL_C) b) as [m2 ok] eqn:Ew.
-      injection H as <- <-. split; [eapply write_extends; exact Ew|].
-      destruct ok; [|exact I].
-      pose proof (chunk_id_of_bound rid COL_C Hr) as Hcid.
-      assert (blen b < ALLOC_OK) as Hl.
-      { destruct Hc as (Hok & _ & _). destruct v; cbn [var_bytes] in Ev; try discriminate; injection Ev as ->;
-          destruct ty; cbn [val_ok] in Hok; try discriminate; [apply andb_true_iff in Hok as [_ Hok]|]; lia. }
-      split.
-      * apply repr_toasted; auto. eapply toast_write_stored; [|exact Ew].
-        unfold ALLOC_OK in Hl. change (2 ^ 31) with 2147483648 in Hl. change (2 ^ 40) with 1099511627776. lia.
-      * intros c Hcc. rewrite cid_of_encode in Hcc by (auto using blen_u64). injection Hcc as <-.
-        apply needs_toast_iff in En.
-        destruct (chunks_nonempty b) as (c0 & t & E); [intros ->; rewrite blen_nil in En; lia|].
-        unfold toast_write in Ew. rewrite E in Ew. eapply write_ok_first_free. exact Ew.
-    + injection H as <- <-. split; [apply extends_refl|]. split; [now apply repr_inline|].
-      intros c Hcc. unfold cid_of in Hcc. destruct Hc as (_ & Hfake & _). rewrite (Hfake b Ev) in Hcc. discriminate.
-  - injection H as <- <-. split; [apply extends_refl|]. split; [now apply repr_scalar|].
-    intros c Hcc. destruct v; cbn [var_bytes] in Ev; try discriminate; cbn in Hcc; discriminate.
+  - pose proof (val_ok_len v b Hok Ev) as Hl.
+    destruct (needs_toast b || ptr_like upd v b) eqn:En.
+    + destruct (toast_write_fresh m (cid_row rid) b Hl Hfree) as [m' Hw]. rewrite Hw.
+      assert (b <> []) as Hne.
+      { apply orb_true_iff in En as [En|En].
+        - apply needs_toast_iff in En. intros ->. rewrite blen_nil in En. lia.
+        - apply pointer_nonempty. unfold ptr_like in En. destruct v; try exact En. destruct upd; [discriminate | exact En]. }
+      assert (blen b < 2 ^ 40) as Hl40 by (unfold ALLOC_OK in Hl; change (2 ^ 31) with 2147483648 in Hl; change (2 ^ 40) with 1099511627776; lia).
+      exists m', (SBytes (ptr_encode (blen b) (cid_row rid))). split; [reflexivity|].
+      split; [eapply write_extends; exact Hw|]. split.
+      * apply repr_toasted; auto. eapply toast_write_stored; eauto.
+      * intros k x Hk. destruct (toast_write_keys m (cid_row rid) b m' true Hl40 Hw k x Hk) as [A|[A B]]; [now left|right].
+        exists (chunk_count (blen b)). rewrite span_encode by (auto using blen_u64, cid_row_bound). auto.
+    + apply orb_false_iff in En as [_ Ep].
+      assert (is_toast_pointer b = false) as Hnp.
+      { destruct v; cbn [var_bytes] in Ev; try discriminate; injection Ev as ->; unfold ptr_like in Ep.
+        - destruct ty; cbn [val_ok] in Hok; try discriminate. apply andb_true_iff in Hok as [Hu _]. now apply utf8_not_pointer.
+        - exact Ep. }
+      exists m, (SBytes b). split; [reflexivity|]. split; [apply extends_refl|]. split; [now apply repr_inline|].
+      intros k x Hk. now left.
+  - exists m, (store_scalar v). split; [reflexivity|]. split; [apply extends_refl|]. split; [now apply repr_scalar|].
+    intros k x Hk. now left.
 Qed.
 
 Lemma put_value_cached_spec m v m' sv :
-  clean_val v -> put_value_cached m v = (m', sv) ->
-  m' = m /\ match sv with Some s => repr ty m s v /\ cid_of s = None | None => True end.
+  val_ok ty v = true -> (forall b, var_bytes v = Some b -> is_toast_pointer b = false) ->
+  put_value_cached m v = (m', sv) ->
+  m' = m /\ match sv with Some s => (forall rid, repr ty m rid s v) /\ span s = None | None => True end.
 Proof.
-  intros Hc H. unfold put_value_cached in H.
+  intros Hok Hnp H. unfold put_value_cached in H.
   destruct (var_bytes v) as [b|] eqn:Ev.
   - destruct (blen b <=? INLINE_MAX); injection H as <- <-; split; auto.
-    split; [now apply repr_inline|]. unfold cid_of. destruct Hc as (_ & Hfake & _). now rewrite (Hfake b Ev).
-  - injection H as <- <-. split; auto. split; [now apply repr_scalar|].
-    destruct v; cbn [var_bytes] in Ev; try discriminate; reflexivity.
+    split; [intros rid; apply repr_inline; auto|]. unfold span. now rewrite (Hnp b eq_refl).
+  - injection H as <- <-. split; auto. split; [intros rid; now apply repr_scalar | apply span_scalar].
 Qed.
 
-(* ---------------------------------------------------------------- facts about rows under the invariant *)
-Lemma inv_row_repr st e r : Inv st e -> In r (rows st) -> exists x, In x e /\ R (toast st) r x.
-Proof. intros [H _ _ _ _ _] Hin. eapply Forall2_in_l; eauto. Qed.
-
-(* a row that refers to a chunk id occupies key (cid, 0) *)
-Lemma inv_cid_present st e r c : Inv st e -> In r (rows st) -> cid_of (r_st r) = Some c -> exists x, toast st (c, 0) = Some x.
+(* the row insert cannot meet an existing row key *)
+Lemma rid_unused st e : Inv st e -> has_rid (next_rid st) (rows st) || existsb (Z.eqb (next_rid st)) (gone st) = false.
 Proof.
-  intros Hi Hin Hc. destruct (inv_row_repr st e r Hi Hin) as (x & _ & _ & Hr).
-  destruct (repr_cid _ _ _ _ _ Hr Hc) as (b & Hs & Hb & _). eapply stored_first; eauto.
+  intros Hi. apply orb_false_iff. split.
+  - pose proof (inv_rids st e Hi) as H. induction (rows st) as [|h t IH]; [reflexivity|].
+    cbn [has_rid]. apply orb_false_iff. split.
+    + pose proof (H h (or_introl eq_refl)). lia.
+    + apply IH. intros r Hr. apply H. now right.
+  - pose proof (inv_gone st e Hi) as H. induction (gone st) as [|h t IH]; [reflexivity|].
+    cbn [existsb]. apply orb_false_iff. split.
+    + pose proof (H h (or_introl eq_refl)). lia.
+    + apply IH. intros r Hr. apply H. now right.
 Qed.
 
-(* delete_toast_chunks for the old value of row r leaves the other rows alone *)
-Lemma drop_old_others st e r r' x :
-  Inv st e -> In r (rows st) -> In r' (rows st) -> r_k r' <> r_k r ->
-  R (toast st) r' x -> R (drop_old (toast st) (r_st r)) r' x.
+(* ---------------------------------------------------------------- delete_toast_chunks for the old value of a row *)
+Lemma drop_old_spec st e r :
+  Inv st e -> next_rid st <= 2 ^ 48 -> In r (rows st) ->
+  let m1 := drop_old (toast st) (r_st r) in
+  (forall i, m1 (cid_row (r_rid r), i) = None) /\
+  (forall r' x, In r' (rows st) -> r_k r' <> r_k r -> R (toast st) r' x -> R m1 r' x) /\
+  (forall k x, m1 k = Some x -> toast st k = Some x /\ fst k <> cid_row (r_rid r)).
 Proof.
-  intros Hi Hin Hin' Hk [Hkey Hr']. split; [exact Hkey|].
-  unfold drop_old. destruct (r_st r) as [|b0|] eqn:Es; auto.
-  destruct (is_toast_pointer b0) eqn:Ep; auto.
-  destruct (is_pointer_decodes b0 Ep) as (t0 & c0 & Ed).
-  assert (cid_of (r_st r) = Some c0) as Hc0 by (rewrite Es; unfold cid_of; now rewrite Ep, Ed).
-  destruct (inv_row_repr st e r Hi Hin) as (x0 & _ & _ & Hr0).
-  destruct (repr_cid _ _ _ _ _ Hr0 Hc0) as (b & Hs & Hb & Hcb & Hl & E).
-  rewrite Es in E. injection E as ->.
-  rewrite del_pointer_encode by (auto using blen_u64).
-  apply repr_del; [|exact Hr']. intros Hc'. eapply (inv_cids st e Hi r' r c0); eauto.
+  intros Hi Hb Hin m1. pose proof (inv_rid48 st e r Hi Hb Hin) as Hrid.
+  assert (forall r', In r' (rows st) -> r_k r' <> r_k r -> cid_row (r_rid r') <> cid_row (r_rid r)) as Hother.
+  { intros r' Hin' Hk E. apply cid_row_inj in E; [|eapply inv_rid48; eauto|exact Hrid].
+    apply Hk. f_equal. eapply (nodup_map_inj r_rid); [exact (inv_ridnd st e Hi) | | |]; auto. }
+  destruct (span (r_st r)) as [[c n]|] eqn:Hsp.
+  - (* the old value is a pointer: its chunks go *)
+    destruct (inv_row_repr st e r Hi Hin) as (x0 & _ & _ & Hr0).
+    destruct (repr_span _ _ _ _ _ _ _ Hrid Hr0 Hsp) as (-> & b & -> & Es & Hs & Hne & Hl).
+    assert (m1 = del_chunks (toast st) (cid_row (r_rid r)) (chunk_count (blen b))) as Em.
+    { unfold m1, drop_old. rewrite Es, ptr_encode_is_pointer. apply del_pointer_encode; auto using blen_u64, cid_row_bound. }
+    rewrite Em. split; [|split].
+    + intros i. destruct (toast st (cid_row (r_rid r), i)) as [x|] eqn:Hk.
+      * destruct (owner_is st e r _ x Hi Hb Hin Hk eq_refl) as (n' & Hsp' & Hi'). rewrite Hsp in Hsp'. injection Hsp' as <-.
+        cbn [snd] in Hi'. now apply del_chunks_gone.
+      * unfold del_chunks. destruct (_ && _); [reflexivity | exact Hk].
+    + intros r' x Hin' Hk [A B]. split; [exact A|]. apply repr_del; [now apply Hother | exact B].
+    + intros k x Hk. apply del_chunks_sub in Hk as [Hk Hno]. split; [exact Hk|]. intros Hc.
+      destruct (owner_is st e r k x Hi Hb Hin Hk Hc) as (n' & Hsp' & Hi'). rewrite Hsp in Hsp'. injection Hsp' as <-.
+      apply Hno. split; [exact Hc | lia].
+  - (* inline or scalar: nothing is deleted, and no chunk belongs to this row *)
+    assert (m1 = toast st) as Em.
+    { unfold m1, drop_old. unfold span in Hsp. destruct (r_st r) as [|b0|]; auto.
+      destruct (is_toast_pointer b0) eqn:Ep; auto. destruct (is_pointer_decodes b0 Ep) as (t0 & c0 & Ed). rewrite Ed in Hsp. discriminate. }
+    rewrite Em. split; [|split].
+    + intros i. destruct (toast st (cid_row (r_rid r), i)) as [x|] eqn:Hk; [exfalso|reflexivity].
+      destruct (owner_is st e r _ x Hi Hb Hin Hk eq_refl) as (n' & Hsp' & _). rewrite Hsp in Hsp'. discriminate.
+    + auto.
+    + intros k x Hk. split; [exact Hk|]. intros Hc.
+      destruct (owner_is st e r k x Hi Hb Hin Hk Hc) as (n' & Hsp' & _). rewrite Hsp in Hsp'. discriminate.
 Qed.
-
-Lemma drop_old_not_pointer m s : old_is_pointer s = false -> drop_old m s = m.
-Proof. unfold old_is_pointer, drop_old. destruct s; auto. now intros ->. Qed.
 
 (* ---------------------------------------------------------------- the oracle, one step at a time *)
 Definition spec_step (e : list (Z * value)) (o : op) (ob : sobs) : option (list (Z * value)) :=
@@ -186,70 +318,80 @@ Qed.
 
 Ltac fin_same Hsame :=
   split; [reflexivity|]; split; [apply Hsame; reflexivity|];
-  cbn [dead lost next_rid rows toast]; repeat split; auto.
+  cbn [dead fake next_rid rows toast]; repeat split; auto.
 
 (* ---------------------------------------------------------------- INSERT *)
 Lemma step_ins_ok st e p k v st' ob :
-  Inv st e -> clean_val v -> ~ In k (map r_k (rows st)) -> next_rid st < 2 ^ 62 ->
-  step_ins st p k v = (st', ob) ->
+  Inv st e -> val_ok ty v = true -> ~ In k (map r_k (rows st)) -> next_rid st < 2 ^ 48 ->
+  step_ins st p k v = (st', ob) -> fake st' = false ->
   exists e', spec_step e (OIns p k v) ob = Some e' /\ Inv st' e' /\
-             dead st' = dead st /\ lost st' = lost st /\ next_rid st' = next_rid st + 1 /\
+             dead st' = dead st /\ next_rid st' = next_rid st + 1 /\
              (forall y, In y (map r_k (rows st')) -> y = k \/ In y (map r_k (rows st))).
 Proof.
-  intros Hi Hc Hfresh Hrid H. pose proof (inv_rid st e Hi) as Hr1.
-  unfold step_ins in H.
+  intros Hi Hok Hfresh Hrid H Hfk. pose proof (inv_rid st e Hi) as Hr1.
+  unfold step_ins in H. rewrite (rid_unused st e Hi) in H.
   set (cached := match p with PS => ins_cached st | _ => false end) in H.
   set (ic := match p with PS => true | _ => ins_cached st end) in H.
-  remember (if cached then put_value_cached (toast st) v else put_value (toast st) (next_rid st) v) as ms eqn:Ems.
-  destruct ms as [m' sv]. cbn [fst snd] in H.
-  (* what the value write did *)
-  assert (extends (toast st) m' /\
-          match sv with Some s => repr ty m' s v /\ (forall c, cid_of s = Some c -> toast st (c, 0) = None) | None => True end) as [Hext Hsv].
-  { destruct cached.
-    - destruct (put_value_cached_spec (toast st) v m' sv Hc (eq_sym Ems)) as [-> Hs].
-      split; [apply extends_refl|]. destruct sv as [s|]; [|exact I]. destruct Hs as [Hs1 Hs2].
-      split; [exact Hs1|]. intros c Hcc. congruence.
-    - apply (put_value_spec (toast st) (next_rid st) v m' sv Hc); [change (2 ^ 64) with 18446744073709551616; change (2 ^ 62) with 4611686018427387904 in Hrid; lia | now symmetry]. }
-  (* the rows seen through the new toast table *)
-  assert (Forall2 (R m') (rows st) e) as Hrows'.
-  { eapply (F2_impl (R (toast st)) (R m')); [exact (inv_rows st e Hi)|].
-    intros r x _ [A B]. split; [exact A | eapply repr_extends; eauto]. }
-  assert (forall stx, rows stx = rows st -> toast stx = m' -> next_rid stx = next_rid st + 1 -> gone stx = gone st -> Inv stx e) as Hsame.
+  set (fk := fake st || (cached && match var_bytes v with Some b => is_toast_pointer b | None => false end)) in H.
+  assert (fk = false) as Hfk0.
+  { destruct (snd (if cached then put_value_cached (toast st) v else put_value false (toast st) (next_rid st) v));
+      injection H as <- _; exact Hfk. }
+  assert (forall stx, rows stx = rows st -> toast stx = toast st -> next_rid stx = next_rid st + 1 -> gone stx = gone st -> Inv stx e) as Hsame.
   { intros stx E1 E2 E3 E4. constructor; rewrite ?E1, ?E2, ?E3, ?E4; auto;
-      [exact (inv_keys st e Hi) | exact (inv_cids st e Hi) | lia
+      [exact (inv_rows st e Hi) | exact (inv_keys st e Hi) | exact (inv_ridnd st e Hi) | lia
       | intros r Hin; pose proof (inv_rids st e Hi r Hin); lia
-      | intros x Hin; pose proof (inv_gone st e Hi x Hin); lia]. }
+      | intros x Hin; pose proof (inv_gone st e Hi x Hin); lia
+      | exact (inv_owned st e Hi)]. }
+  (* the value write: never fails on the ordinary path; leaves a row that shows v *)
+  assert (exists m' sv, (if cached then put_value_cached (toast st) v else put_value false (toast st) (next_rid st) v) = (m', sv) /\
+          extends (toast st) m' /\
+          match sv with
+          | Some s => repr ty m' (next_rid st) s v /\
+                      (forall k0 x, m' k0 = Some x -> toast st k0 = Some x \/
+                         (exists n, span s = Some (cid_row (next_rid st), n) /\ fst k0 = cid_row (next_rid st) /\ 0 <= snd k0 < n))
+          | None => m' = toast st
+          end) as (m' & sv & Ems & Hext & Hsv).
+  { destruct cached eqn:Ec.
+    - destruct (put_value_cached (toast st) v) as [m' sv] eqn:Ep. exists m', sv. split; [reflexivity|].
+      assert (forall b, var_bytes v = Some b -> is_toast_pointer b = false) as Hnp.
+      { intros b Eb. unfold fk in Hfk0. rewrite Eb in Hfk0. apply orb_false_iff in Hfk0 as [_ H0]. exact H0. }
+      destruct (put_value_cached_spec (toast st) v m' sv Hok Hnp Ep) as [-> Hs].
+      split; [apply extends_refl|]. destruct sv as [s|]; [|reflexivity]. destruct Hs as [Hs1 Hs2].
+      split; [apply Hs1|]. intros k0 x Hk0. now left.
+    - destruct (put_value_ok false (toast st) (next_rid st) v Hok ltac:(lia)) as (m' & s & Ep & Hex & Hrp & Hks).
+      + apply (key_free st e (next_rid st) Hi); [lia | lia |]. intros r Hin. pose proof (inv_rids st e Hi r Hin). lia.
+      + exists m', (Some s). auto. }
+  rewrite Ems in H. cbn [fst snd] in H.
   destruct sv as [s|].
-  - destruct Hsv as [Hrepr Hfree].
-    destruct (has_rid (next_rid st) (rows st) || existsb (Z.eqb (next_rid st)) (gone st)).
-    + injection H as <- <-. exists e. fin_same Hsame.
-    + injection H as <- <-. exists (exp_ins k v e).
-      split; [reflexivity|].
-      split; [|cbn [dead lost next_rid rows]; repeat split; auto; intros y Hy; apply ins_row_keys_in in Hy; exact Hy].
-      constructor; cbn [rows toast next_rid gone].
-      * apply (F2_ins (R m') (R_key m')); [exact Hrows'|]. split; [reflexivity | exact Hrepr].
-      * apply ins_row_nodup; [exact (inv_keys st e Hi) | exact Hfresh].
-      * intros r r' c Hin Hin' Hk Hcr Hcr'.
-        apply ins_row_in in Hin as [->|Hin]; apply ins_row_in in Hin' as [->|Hin'].
-        -- now apply Hk.
-        -- cbn [r_st] in Hcr. destruct (inv_cid_present st e r' c Hi Hin' Hcr') as [x Hx]. rewrite (Hfree c Hcr) in Hx. discriminate.
-        -- cbn [r_st] in Hcr'. destruct (inv_cid_present st e r c Hi Hin Hcr) as [x Hx]. rewrite (Hfree c Hcr') in Hx. discriminate.
-        -- eapply (inv_cids st e Hi r r' c); eauto.
-      * lia.
-      * intros r Hin. apply ins_row_in in Hin as [->|Hin]; [cbn [r_rid]; lia|]. pose proof (inv_rids st e Hi r Hin). lia.
-      * intros x Hin. pose proof (inv_gone st e Hi x Hin). lia.
-  - injection H as <- <-. exists e. fin_same Hsame.
+  - destruct Hsv as [Hrepr Hks]. injection H as <- <-. exists (exp_ins k v e).
+    split; [reflexivity|].
+    split; [|cbn [dead next_rid rows]; repeat split; auto; intros y Hy; apply ins_row_keys_in in Hy; exact Hy].
+    constructor; cbn [rows toast next_rid gone].
+    + apply (F2_ins (R m') (R_key m')).
+      * eapply (F2_impl (R (toast st)) (R m')); [exact (inv_rows st e Hi)|].
+        intros r x _ [A B]. split; [exact A | eapply repr_extends; eauto].
+      * split; [reflexivity | exact Hrepr].
+    + apply ins_row_nodup; [exact (inv_keys st e Hi) | exact Hfresh].
+    + apply ins_row_nodup_f; [exact (inv_ridnd st e Hi)|]. cbn [r_rid]. intros Hin. apply in_map_iff in Hin as (r & E & Hr).
+      pose proof (inv_rids st e Hi r Hr). lia.
+    + lia.
+    + intros r Hin. apply ins_row_in in Hin as [->|Hin]; [cbn [r_rid]; lia|]. pose proof (inv_rids st e Hi r Hin). lia.
+    + intros x Hin. pose proof (inv_gone st e Hi x Hin). lia.
+    + intros k0 x Hk0. destruct (Hks k0 x Hk0) as [Hold|(n & Hsp & Hc & Hn)].
+      * destruct (inv_owned st e Hi k0 x Hold) as (r & n & Hin & Hsp & Hn). exists r, n. split; [apply ins_row_in; now right | auto].
+      * exists (mkrow (next_rid st) k s), n. split; [apply ins_row_in; now left|]. cbn [r_st]. rewrite Hc. auto.
+  - subst m'. injection H as <- <-. exists e. fin_same Hsame.
 Qed.
 
 (* ---------------------------------------------------------------- UPDATE *)
 Lemma step_upd_ok st e p k v st' ob :
-  Inv st e -> clean_val v ->
-  step_upd pk st p k v = (st', ob) -> lost st' = false ->
+  Inv st e -> val_ok ty v = true -> next_rid st <= 2 ^ 48 ->
+  step_upd pk st p k v = (st', ob) ->
   exists e', spec_step e (OUpd p k v) ob = Some e' /\ Inv st' e' /\
-             dead st' = dead st /\ next_rid st' = next_rid st /\
+             dead st' = dead st /\ fake st' = fake st /\ next_rid st' = next_rid st /\
              map r_k (rows st') = map r_k (rows st).
 Proof.
-  intros Hi Hc H Hlost. pose proof (inv_rid st e Hi) as Hr1.
+  intros Hi Hok Hb H. pose proof (inv_rid st e Hi) as Hr1.
   unfold step_upd in H.
   set (uc := match p with PS => true | _ => upd_cached st end) in H.
   assert (forall stx, rows stx = rows st -> toast stx = toast st -> next_rid stx = next_rid st -> gone stx = gone st -> Inv stx e) as Hsame.
@@ -258,81 +400,69 @@ Proof.
   - destruct (find_k_some k (rows st) r Ef) as [Hin Hk].
     destruct ((match p with PS => upd_cached st | _ => false end) && pk).
     + injection H as <- <-. exists e. fin_same Hsame.
-    + remember (put_value (drop_old (toast st) (r_st r)) (if pk then wrap_u 64 k else 0) v) as ms eqn:Ems.
-      destruct ms as [m2 sv]. cbn [fst snd] in H.
-      assert (0 <= (if pk then wrap_u 64 k else 0) < 2 ^ 64) as Hpkv.
-      { destruct pk; [unfold wrap_u; apply Z.mod_pos_bound; reflexivity | change (2 ^ 64) with 18446744073709551616; lia]. }
-      destruct (put_value_spec _ _ _ _ _ Hc Hpkv (eq_sym Ems)) as [Hext Hsv].
-      destruct sv as [s|].
-      * destruct Hsv as [Hrepr Hfree]. injection H as <- <-.
-        exists (exp_set k v e).
-        split; [reflexivity|].
-        split; [|cbn [dead lost next_rid rows]; repeat split; auto; apply set_row_keys].
-        constructor; cbn [rows toast next_rid gone];
-          [| rewrite set_row_keys; exact (inv_keys st e Hi) | | exact Hr1
-           | intros r0 Hin0; destruct (set_row_in k s (rows st) r0 (inv_keys st e Hi) Hin0) as [(ra & Hra & _ & ->)|[Hra _]];
-             [cbn [r_rid]; exact (inv_rids st e Hi ra Hra) | exact (inv_rids st e Hi r0 Hra)]
-           | exact (inv_gone st e Hi)].
-        -- apply (F2_set (R (toast st)) (R m2) (R_key (toast st))); [exact (inv_rows st e Hi) | exact (inv_keys st e Hi) | |].
-           ++ intros r' x Hin' HR Hk'. rewrite <- Hk in Hk'.
-              destruct (drop_old_others st e r r' x Hi Hin Hin' Hk' HR) as [A B].
-              split; [exact A | eapply repr_extends; eauto].
-           ++ intros r' x _ _ _. split; [reflexivity | exact Hrepr].
-        -- intros r1 r2 c Hin1 Hin2 Hk12 Hc1 Hc2.
-           (* a row of the new list that refers to chunk id c: the rewritten row (then (c,0) was free after the
-              old chunks were dropped) or an untouched row (then (c,0) is still occupied after the drop) *)
-           assert (forall r', In r' (rows st) -> r_k r' <> k -> cid_of (r_st r') = Some c ->
-                     exists x, drop_old (toast st) (r_st r) (c, 0) = Some x) as Hocc.
-           { intros r' Hin' Hk' Hc'. destruct (inv_row_repr st e r' Hi Hin') as (x & _ & HR).
-             rewrite <- Hk in Hk'. destruct (drop_old_others st e r r' x Hi Hin Hin' Hk' HR) as [_ B].
-             destruct (repr_cid _ _ _ _ _ B Hc') as (b & Hs & Hb & _). eapply stored_first; eauto. }
-           destruct (set_row_in k s (rows st) r1 (inv_keys st e Hi) Hin1) as [(ra & _ & _ & ->)|[Hi1 Hk1]];
-           destruct (set_row_in k s (rows st) r2 (inv_keys st e Hi) Hin2) as [(rb & _ & _ & ->)|[Hi2 Hk2]].
-           ++ now apply Hk12.
-           ++ cbn [r_st] in Hc1. destruct (Hocc r2 Hi2 Hk2 Hc2) as [x Hx]. rewrite (Hfree c Hc1) in Hx. discriminate.
-           ++ cbn [r_st] in Hc2. destruct (Hocc r1 Hi1 Hk1 Hc1) as [x Hx]. rewrite (Hfree c Hc2) in Hx. discriminate.
-           ++ eapply (inv_cids st e Hi r1 r2 c); eauto.
-      * injection H as <- <-. cbn [lost] in Hlost.
-        assert (old_is_pointer (r_st r) = false) as Hnp.
-        { apply orb_false_iff in Hlost. tauto. }
-        rewrite (drop_old_not_pointer _ _ Hnp) in Hext.
-        exists e.
-        split; [reflexivity|].
-        split; [|cbn [dead lost next_rid rows]; repeat split; auto].
-        constructor; cbn [rows toast next_rid gone];
-          [| exact (inv_keys st e Hi) | exact (inv_cids st e Hi) | exact Hr1 | exact (inv_rids st e Hi) | exact (inv_gone st e Hi)].
-        eapply (F2_impl (R (toast st)) (R m2)); [exact (inv_rows st e Hi)|].
-        intros r' x _ [A B]. split; [exact A | eapply repr_extends; eauto].
+    + destruct (drop_old_spec st e r Hi Hb Hin) as (Hfree & Hothers & Hsub).
+      pose proof (inv_rid48 st e r Hi Hb Hin) as Hrid.
+      destruct (put_value_ok true (drop_old (toast st) (r_st r)) (r_rid r) v Hok Hrid Hfree) as (m2 & s & Ep & Hext & Hrepr & Hks).
+      rewrite Ep in H. cbn [fst snd] in H. injection H as <- <-.
+      exists (exp_set k v e).
+      split; [reflexivity|].
+      split; [|cbn [dead fake next_rid rows]; repeat split; auto; apply set_row_keys].
+      assert (forall r', In r' (rows st) -> r_k r' = k -> r' = r) as Huniq.
+      { intros r' Hin' Hk'. eapply (nodup_map_inj r_k); [exact (inv_keys st e Hi) | | |]; auto. congruence. }
+      constructor; cbn [rows toast next_rid gone].
+      * apply (F2_set (R (toast st)) (R m2) (R_key (toast st))); [exact (inv_rows st e Hi) | exact (inv_keys st e Hi) | |].
+        -- intros r' x Hin' HR Hk'. rewrite <- Hk in Hk'.
+           destruct (Hothers r' x Hin' Hk' HR) as [A B]. split; [exact A | eapply repr_extends; eauto].
+        -- intros r' x Hin' _ Hk'. rewrite (Huniq r' Hin' Hk'). split; [reflexivity | exact Hrepr].
+      * rewrite set_row_keys. exact (inv_keys st e Hi).
+      * rewrite set_row_rids. exact (inv_ridnd st e Hi).
+      * exact Hr1.
+      * intros r0 Hin0. destruct (set_row_in k s (rows st) r0 (inv_keys st e Hi) Hin0) as [(ra & Hra & _ & ->)|[Hra _]];
+          [cbn [r_rid]; exact (inv_rids st e Hi ra Hra) | exact (inv_rids st e Hi r0 Hra)].
+      * exact (inv_gone st e Hi).
+      * intros k0 x Hk0. destruct (Hks k0 x Hk0) as [Hold|(n & Hsp & Hc & Hn)].
+        -- destruct (Hsub k0 x Hold) as [Hold' Hne].
+           destruct (inv_owned st e Hi k0 x Hold') as (r' & n & Hin' & Hsp & Hn). exists r', n. split; [|auto].
+           apply set_row_keeps; [exact Hin'|]. intros Hk'. rewrite (Huniq r' Hin' Hk') in Hsp.
+           destruct (inv_row_repr st e r Hi Hin) as (x0 & _ & _ & Hr0).
+           destruct (repr_span _ _ _ _ _ _ _ Hrid Hr0 Hsp) as (Ec & _). contradiction.
+        -- exists (mkrow (r_rid r) k s), n. split; [apply set_row_has; auto; exact (inv_keys st e Hi)|]. cbn [r_st]. rewrite Hc. auto.
   - injection H as <- <-. exists (exp_set k v e).
     split; [reflexivity|].
-    split; [|cbn [dead lost next_rid rows]; repeat split; auto].
+    split; [|cbn [dead fake next_rid rows]; repeat split; auto].
     rewrite (exp_set_absent (R (toast st)) (R_key (toast st)) k v (rows st) e (inv_rows st e Hi) (find_k_none _ _ Ef)).
     apply Hsame; reflexivity.
 Qed.
 
 (* ---------------------------------------------------------------- DELETE *)
 Lemma step_del_ok st e k st' ob :
-  Inv st e -> step_del st k = (st', ob) ->
+  Inv st e -> next_rid st <= 2 ^ 48 -> step_del st k = (st', ob) ->
   exists e', spec_step e (ODel k) ob = Some e' /\ Inv st' e' /\
-             dead st' = dead st /\ lost st' = lost st /\ next_rid st' = next_rid st /\
+             dead st' = dead st /\ fake st' = fake st /\ next_rid st' = next_rid st /\
              (forall y, In y (map r_k (rows st')) -> In y (map r_k (rows st))).
 Proof.
-  intros Hi H. unfold step_del in H.
+  intros Hi Hb H. unfold step_del in H.
   destruct (find_k k (rows st)) as [r|] eqn:Ef.
   - destruct (find_k_some k (rows st) r Ef) as [Hin Hk]. injection H as <- <-.
+    destruct (drop_old_spec st e r Hi Hb Hin) as (_ & Hothers & Hsub).
+    pose proof (inv_rid48 st e r Hi Hb Hin) as Hrid.
     exists (exp_del k e).
     split; [reflexivity|].
-    split; [|cbn [dead lost next_rid rows]; repeat split; auto; intros y; apply del_row_keys_incl].
-    constructor; cbn [rows toast next_rid gone];
-      [| apply del_row_nodup; exact (inv_keys st e Hi) | | exact (inv_rid st e Hi)
-       | intros r0 Hin0; destruct (del_row_in k (rows st) r0 (inv_keys st e Hi) Hin0) as [Hr0 _]; exact (inv_rids st e Hi r0 Hr0)
-       | intros x [<-|Hx]; [exact (inv_rids st e Hi r Hin) | exact (inv_gone st e Hi x Hx)]].
+    split; [|cbn [dead fake next_rid rows]; repeat split; auto; intros y; apply del_row_keys_incl].
+    constructor; cbn [rows toast next_rid gone].
     + apply (F2_del (R (toast st)) (R (drop_old (toast st) (r_st r))) (R_key (toast st))); [exact (inv_rows st e Hi) | exact (inv_keys st e Hi) |].
-      intros r' x Hin' HR Hk'. rewrite <- Hk in Hk'. eapply drop_old_others; eauto.
-    + intros r1 r2 c Hin1 Hin2 Hk12 Hc1 Hc2.
-      destruct (del_row_in k (rows st) r1 (inv_keys st e Hi) Hin1) as [Hi1 _].
-      destruct (del_row_in k (rows st) r2 (inv_keys st e Hi) Hin2) as [Hi2 _].
-      eapply (inv_cids st e Hi r1 r2 c); eauto.
+      intros r' x Hin' HR Hk'. rewrite <- Hk in Hk'. now apply Hothers.
+    + apply del_row_nodup; exact (inv_keys st e Hi).
+    + apply del_row_nodup_f; exact (inv_ridnd st e Hi).
+    + exact (inv_rid st e Hi).
+    + intros r0 Hin0. destruct (del_row_in k (rows st) r0 (inv_keys st e Hi) Hin0) as [Hr0 _]. exact (inv_rids st e Hi r0 Hr0).
+    + intros x [<-|Hx]; [exact (inv_rids st e Hi r Hin) | exact (inv_gone st e Hi x Hx)].
+    + intros k0 x Hk0. destruct (Hsub k0 x Hk0) as [Hold Hne].
+      destruct (inv_owned st e Hi k0 x Hold) as (r' & n & Hin' & Hsp & Hn). exists r', n. split; [|auto].
+      apply del_row_keeps; [exact Hin'|]. intros Hk'.
+      assert (r' = r) as -> by (eapply (nodup_map_inj r_k); [exact (inv_keys st e Hi) | | |]; auto; congruence).
+      destruct (inv_row_repr st e r Hi Hin) as (x0 & _ & _ & Hr0).
+      destruct (repr_span _ _ _ _ _ _ _ Hrid Hr0 Hsp) as (Ec & _). contradiction.
   - injection H as <- <-. exists (exp_del k e).
     split; [reflexivity|].
     split; [|repeat split; auto].
@@ -341,24 +471,27 @@ Proof.
 Qed.
 
 (* ---------------------------------------------------------------- SELECT *)
-Lemma read_rows_ok m : forall rs e, Forall2 (R m) rs e -> all_ok (read_rows ty m rs) = Some e.
+Lemma read_rows_ok m : forall rs e, Forall2 (R m) rs e -> (forall r, In r rs -> 0 <= r_rid r < 2 ^ 48) ->
+  all_ok (read_rows ty m rs) = Some e.
 Proof.
-  induction 1 as [|r [k v] rs e [Hk Hr] _ IH]; [reflexivity|].
-  cbn [read_rows all_ok]. cbn [fst snd] in Hk, Hr. rewrite (repr_read _ _ _ _ Hr), IH, Hk. reflexivity.
+  induction 1 as [|r [k v] rs e [Hk Hr] _ IH]; intros Hb; [reflexivity|].
+  cbn [read_rows all_ok]. cbn [fst snd] in Hk, Hr.
+  rewrite (repr_read _ _ _ _ _ (Hb r (or_introl eq_refl)) Hr), IH, Hk; [reflexivity|]. intros r0 H0. apply Hb. now right.
 Qed.
 
 Lemma rows_eqb_refl_inv m : forall rs e, Forall2 (R m) rs e -> rows_eqb e e = true.
 Proof.
   induction 1 as [|r [k v] rs e [Hk Hr] _ IH]; [reflexivity|].
-  cbn [rows_eqb]. cbn [snd] in Hr. rewrite Z.eqb_refl, (value_eqb_refl v (repr_not_other _ _ _ _ Hr)), IH. reflexivity.
+  cbn [rows_eqb]. cbn [snd] in Hr. rewrite Z.eqb_refl, (value_eqb_refl v (repr_not_other _ _ _ _ _ Hr)), IH. reflexivity.
 Qed.
 
 Lemma step_query_ok st e st' ob :
-  Inv st e -> step_query ty st = (st', ob) ->
+  Inv st e -> next_rid st <= 2 ^ 48 -> step_query ty st = (st', ob) ->
   spec_step e (OQuery 0) ob = Some e /\ st' = st.
 Proof.
-  intros Hi H. unfold step_query in H.
-  rewrite (read_rows_ok (toast st) (rows st) e (inv_rows st e Hi)) in H. injection H as <- <-.
+  intros Hi Hb H. unfold step_query in H.
+  rewrite (read_rows_ok (toast st) (rows st) e (inv_rows st e Hi)) in H by (intros r Hr; eapply inv_rid48; eauto).
+  injection H as <- <-.
   cbn [spec_step]. rewrite (rows_eqb_refl_inv (toast st) (rows st) e (inv_rows st e Hi)). auto.
 Qed.
 
